@@ -249,7 +249,10 @@ GhostNext(gh, pre, rec, post) ==
                 [] OTHER -> gh.red
       dep1 == IF rec.ev = "Delegate" /\ rec.res.ok THEN Append(gh.dep, [k |-> <<e.d, e.v, e.a>>, t |-> pre.now]) ELSE gh.dep
       dep2 == SelectSeq(dep1, LAMBDA x : x.k \in DOMAIN post.dels)
-      slashed2 == gh.slashed \/ (SlashValid(rec) /\ ValExists(pre, e.v) /\ ~IsEmptyMap(Info(pre, e.v).vshares)
+      \* (a slash re-scales token values through the validator's own shares and through the destination positions of pending
+      \* redelegations out of it)
+      slashed2 == gh.slashed \/ (SlashValid(rec) /\ ValExists(pre, e.v)
+                                 /\ (~IsEmptyMap(Info(pre, e.v).vshares) \/ \E i \in DOMAIN gh.red : gh.red[i].src = e.v /\ gh.red[i].due >= pre.now)
                                  /\ \E w \in DOMAIN pre.vals : DOMAIN pre.vals[w].hist # {})
       \* index updates of this step: (validator, alliance, reward denom) whose index grew
       upd == {<<v, k[1], k[2]>> : v \in DOMAIN post.vals \cap DOMAIN pre.vals, k \in {}} \cup
@@ -468,12 +471,21 @@ ClaimProbes(rec) == {p \in ProbeSet(rec) : p.kind = "claim" /\ p.ok}
 Claimable(rec, rd) == BSum(ClaimProbes(rec), LAMBDA p : BSum({i \in DOMAIN p.paid : p.paid[i].a = rd}, LAMBDA i : p.paid[i].x))
 PendingIn(s, rd) == BSum({v \in DOMAIN s.env.vals : HasMod(s, v)}, LAMBDA v : Get(Pending(s, v), rd))
 Shortfall(s, rec, rd) == BSub(Claimable(rec, rd), BAdd(Get(s.bank.rewards, rd), PendingIn(s, rd)))
+\* for the attribution to a known finding the claimable amounts are recomputed with the specification (a claim probe that
+\* fails for lack of funds reports no amount): what every position would be paid after its validator has been settled
+ModelClaimable(s, rd) ==
+  BSum({k \in DOMAIN s.dels : k[3] \in DOMAIN s.assets /\ Started(s.assets[k[3]], s.now) /\ k[2] \in DOMAIN s.vals /\ ~CVRPanics(s, k[2])},
+       LAMBDA k : Get(CalcRewards(CVR(s, k[2]), k).coins, rd))
+ModelShortfall(s, rd) == BSub(ModelClaimable(s, rd), BAdd(Get(s.bank.rewards, rd), PendingIn(s, rd)))
 \* which listed finding explains a short pool in this state: K1 after a slash, K2 within the index-rounding budget
 \* the claim probes index the rewards still pending in x/distribution on their branch: the same rounding allowance for those
 K2Prospective(s, rd) ==
   BSum({v \in DOMAIN s.env.vals : HasMod(s, v) /\ IsPos(Get(Pending(s, v), rd))},
-       LAMBDA v : BSum(PoolEligible(s, Info(s, v)),
-                       LAMBDA a : BQuo(BMul("4", BAdd(TruncInt(ValTokens(s.assets[a], Info(s, v), a)), Get(Pending(s, v), rd))), ONE)))
+       LAMBDA v : BAdd(BSum(PoolEligible(s, Info(s, v)),
+                            LAMBDA a : BQuo(BMul("4", BAdd(TruncInt(ValTokens(s.assets[a], Info(s, v), a)), Get(Pending(s, v), rd))), ONE)),
+                       \* one whole token's worth of the pending rewards per position on v (balances are whole tokens, rounded with +0.01)
+                       BSum({k \in DOMAIN s.dels : k[2] = v /\ k[3] \in PoolEligible(s, Info(s, v))},
+                            LAMBDA k : CeilDiv(Get(Pending(s, v), rd), BMax("1", TruncInt(ValTokens(s.assets[k[3]], Info(s, v), k[3])))))))
 \* a position's whole-token balance is known only to 10^-18 of the validator's tokens (two 18-digit quotients): next to a very
 \* large position a small one is over- or under-valued by up to that much, and a claim multiplies it by the outstanding index
 K2Resolution(s, rd) ==
@@ -484,8 +496,13 @@ K2Resolution(s, rd) ==
                   IN  IF IsPos(out) THEN CeilDiv(BMul(q, out), ONE) ELSE "0")
 PoolExplained(s, rec, gh) ==
   IF gh.slashed THEN "K1"
-  ELSE IF \A rd \in DOMAIN s.bank.rewards \cup DOMAIN gh.k2 \cup UNION {{p.paid[i].a : i \in DOMAIN p.paid} : p \in ClaimProbes(rec)} :
-             BLe(Shortfall(s, rec, rd), BAdd(BAdd(Get(gh.k2, rd), K2Prospective(s, rd)), K2Resolution(s, rd))) THEN "K2"
+  ELSE IF \A rd \in DOMAIN s.bank.rewards \cup DOMAIN gh.k2 \cup UNION {{p.paid[i].a : i \in DOMAIN p.paid} : p \in ClaimProbes(rec)}
+                       \cup UNION {{k[2] : k \in DOMAIN s.vals[v].hist} : v \in DOMAIN s.vals} \cup UNION {DOMAIN Pending(s, v) : v \in DOMAIN s.env.vals} :
+             BLe(BMax(Shortfall(s, rec, rd), ModelShortfall(s, rd)),
+                 BAdd(BAdd(BAdd(Get(gh.k2, rd), K2Prospective(s, rd)), K2Resolution(s, rd)),
+                      \* ill-conditioned weight splits (a validator holding 10^-9 of an asset has its staked reward weight known to
+                      \* 10^-9 relative only): one part in 10^9 of what is at stake
+                      BQuo(BAdd(BAdd(Get(s.bank.rewards, rd), PendingIn(s, rd)), ModelClaimable(s, rd)), "1000000000"))) THEN "K2"
   ELSE ""
 \* K3: the validator records delegator shares of the asset but holds no tokens of it (after a 100 % slash); the share
 \* conversion of a new deposit divides by zero
@@ -549,7 +566,9 @@ C09_Step(pre, rec, post, gh) ==
                           "a take-rate deduction changed share records of " \o a) : a \in charged}
         \* never retroactive.  K5: the clock can only advance when coins are moved at an end-of-block, so it lags behind after a
         \* dust-only period (gh.stall) and across a block gap of several intervals; a lag without either cause is not explained
-        \cup (LET k5 == IF gh.stall \/ (gh.prevEnd # -1 /\ pre.now - gh.prevEnd >= I) \/ gh.prevEnd = -1 THEN "K5" ELSE ""
+        \* (absent a dust stall the clock is never more than one interval behind the PREVIOUS end-of-block: whatever lag there is
+        \* now then comes from the block gap)
+        \cup (LET k5 == IF gh.stall \/ gh.prevEnd = -1 \/ L + I >= gh.prevEnd THEN "K5" ELSE ""
               IN  UNION {CheckK("C09", ~(due /\ pre.assets[a].start >= L + I), k5,
                                 "asset " \o a \o " (reward start " \o ToString(pre.assets[a].start) \o ") was charged for " \o ToString(n) \o
                                 " intervals counted from " \o ToString(L) \o ": at least one whole interval before its reward start time") : a \in charged}
